@@ -25,12 +25,9 @@ Definition hist_ok (h : list event) : Prop :=
                      forall e', In e' (h1 ++ h2) -> completion_of k e' = false) /\
   (* a returned value is the body of a response frame that carried this call's own id and arrived before *)
   (forall h1 h2 k b, h = h1 ++ ERet k b :: h2 -> In (EResp k b) h1) /\
-  (* a call raises (or close() is a no-op) only after the connection was lost / closed / the server failed ... *)
+  (* a call raises (or close() is a no-op) only after the connection was lost / closed / the server failed *)
   (forall h1 h2 k e, h = h1 ++ ERaise k e :: h2 -> In ELoss h1) /\
-  (forall h1 h2 k, h = h1 ++ ENoop k :: h2 -> In ELoss h1) /\
-  (* ... and never once its own response has arrived *)
-  (forall h1 h2 k e b, h = h1 ++ ERaise k e :: h2 -> In (ECall k) h1 ->
-     forall h3 h4, h1 = h3 ++ EResp k b :: h4 -> In (ECall k) h3 -> False).
+  (forall h1 h2 k, h = h1 ++ ENoop k :: h2 -> In ELoss h1).
 
 Inductive mstat := MIdle | MCalled | MAnswered (b : body) | MDone.
 Record mon := mkMon { m_st : list mstat; m_lost : bool; m_bad : bool }.
